@@ -17,14 +17,19 @@ import (
 	"crypto/sha256"
 	"encoding/json"
 	"fmt"
+	"os"
+	"path/filepath"
+	"runtime"
 	"sort"
 	"strings"
+	"sync"
 	"testing"
 	"time"
 
 	"honnef.co/go/tools/internal/verifx/sched"
 	"honnef.co/go/tools/internal/verifx/vfs"
 	"honnef.co/go/tools/internal/verifx/vx"
+	"honnef.co/go/tools/internal/verifx/ws"
 )
 
 const c05Dir = "/cache"
@@ -280,6 +285,7 @@ func TestVerifC05(t *testing.T) {
 	}
 	shard, nshards := vx.Shard()
 	var hits, misses int64
+	res.SetBudget(vx.Budget(6*time.Minute, 40*time.Minute))
 
 	// ---- Part A + B
 	maxLen := vx.Pick(2, 3)
@@ -328,6 +334,11 @@ func TestVerifC05(t *testing.T) {
 	// ---- Part C
 	c05Concurrency(res, shard, nshards, &hits, &misses)
 
+	// ---- Part D: linter results through a damaged real cache (real binary, real file system)
+	if shard == 0 {
+		c05Binary(res)
+	}
+
 	res.Count("lookup_hits", hits)
 	res.Count("lookup_misses", misses)
 	res.Validated = res.Evaluations
@@ -335,6 +346,132 @@ func TestVerifC05(t *testing.T) {
 		res.Note("vacuous: no lookup ever hit")
 		res.NotExhaustive("vacuous run")
 	}
+}
+
+// c05Binary: populate a real cache with one run of the real binary on the 3-package workspace,
+// then for every cache file x truncation class {0, 1, mid, len-1} and every small subset of
+// deleted files rerun on a copy of the damaged cache: problems and exit status must equal the
+// run without a cache.
+func c05Binary(res *vx.Result) {
+	bin := os.Getenv("VERIF_BIN_STATICCHECK")
+	if bin == "" {
+		res.Note("part D skipped: no staticcheck binary")
+		return
+	}
+	scratch := vx.ScratchDir()
+	dir := filepath.Join(scratch, "ws")
+	p := (1<<ws.NumWSBits - 1) &^ ws.BadConf
+	if err := ws.Write(dir, p, false); err != nil {
+		res.Note("part D: %v", err)
+		res.NotExhaustive("part D setup failed")
+		return
+	}
+	base := filepath.Join(scratch, "cache0")
+	os.MkdirAll(base, 0o755)
+	cold, err := ws.Run(bin, dir, base, p)
+	if err != nil {
+		res.Note("part D: %v", err)
+		res.NotExhaustive("part D setup failed")
+		return
+	}
+	var files []string
+	filepath.Walk(base, func(path string, info os.FileInfo, err error) error {
+		if err == nil && !info.IsDir() && (strings.HasSuffix(path, "-a") || strings.HasSuffix(path, "-d")) {
+			rel, _ := filepath.Rel(base, path)
+			files = append(files, rel)
+		}
+		return nil
+	})
+	sort.Strings(files)
+	type dmg struct {
+		desc  string
+		apply func(cd string)
+	}
+	var cases []dmg
+	for _, f := range files {
+		st, _ := os.Stat(filepath.Join(base, f))
+		n := st.Size()
+		for _, l := range []int64{0, 1, n / 2, n - 1} {
+			if l < 0 || l >= n {
+				continue
+			}
+			f, l := f, l
+			cases = append(cases, dmg{fmt.Sprintf("trunc:%s:%d", f, l), func(cd string) { os.Truncate(filepath.Join(cd, f), l) }})
+		}
+	}
+	maxSubset := vx.Pick(2, 3)
+	var rec func(start int, cur []string)
+	rec = func(start int, cur []string) {
+		if len(cur) > 0 {
+			c := append([]string(nil), cur...)
+			cases = append(cases, dmg{"del:" + strings.Join(c, ","), func(cd string) {
+				for _, f := range c {
+					os.Remove(filepath.Join(cd, f))
+				}
+			}})
+		}
+		if len(cur) == maxSubset {
+			return
+		}
+		for i := start; i < len(files); i++ {
+			rec(i+1, append(cur, files[i]))
+		}
+	}
+	rec(0, nil)
+	var idx, data []string
+	for _, f := range files {
+		if strings.HasSuffix(f, "-a") {
+			idx = append(idx, f)
+		} else {
+			data = append(data, f)
+		}
+	}
+	for _, grp := range [][]string{idx, data} {
+		grp := grp
+		cases = append(cases, dmg{fmt.Sprintf("del-all:%d-files", len(grp)), func(cd string) {
+			for _, f := range grp {
+				os.Remove(filepath.Join(cd, f))
+			}
+		}})
+	}
+	var wg sync.WaitGroup
+	sem := make(chan struct{}, runtime.NumCPU())
+	var mu sync.Mutex
+	for i, c := range cases {
+		if res.Expired() {
+			res.NotExhaustive(fmt.Sprintf("part D: time budget reached after %d of %d damage cases", i, len(cases)))
+			break
+		}
+		wg.Add(1)
+		sem <- struct{}{}
+		go func(i int, c dmg) {
+			defer wg.Done()
+			defer func() { <-sem }()
+			cd := filepath.Join(scratch, fmt.Sprintf("dcache%d", i))
+			defer os.RemoveAll(cd)
+			if err := ws.CopyDir(base, cd); err != nil {
+				return
+			}
+			c.apply(cd)
+			out, err := ws.Run(bin, dir, cd, p)
+			mu.Lock()
+			defer mu.Unlock()
+			res.Eval(1)
+			res.Transitions++
+			res.Count("binary_damage_cases", 1)
+			res.NontrivialN(1)
+			if err != nil {
+				res.Violate("D:"+c.desc, "run with damaged cache failed: "+err.Error(), map[string]any{"part": "D", "damage": c.desc})
+				return
+			}
+			if out != cold {
+				res.Violate("D:"+c.desc, fmt.Sprintf("results through the damaged cache (%s) differ from the cold run:\n--- damaged\n%s--- cold\n%s", c.desc, out, cold), map[string]any{"part": "D", "damage": c.desc})
+			}
+		}(i, c)
+	}
+	wg.Wait()
+	res.Count("binary_cache_files", int64(len(files)))
+	res.Sample(map[string]any{"part": "D", "cache_files": files, "cold_exit": cold.Code})
 }
 
 func c05Damage(res *vx.Result, seq []c05Op, m *c05Model, _ *c05Stats) {
